@@ -45,6 +45,8 @@ class Recorder:
         self.samples = []
         self.excluded = collections.Counter()
         self.inconclusive = 0
+        self.inner = 0
+        self.inner_nt = 0
         self.failures = {}
         self.entries = findings.load()
         self.t0 = time.time()
@@ -94,6 +96,8 @@ class Recorder:
                     traceback=traceback.format_exc()[-4000:],
                 )
             return b
+        self.inner += int(info.get("inner_evaluations", 0))
+        self.inner_nt += int(info.get("inner_nontrivial", 0))
         first = h not in self.seen
         self.seen.add(h)
         cl = list(info.get("classes", ()))
@@ -118,6 +122,8 @@ class Recorder:
             samples=self.samples,
             excluded=dict(self.excluded),
             inconclusive=self.inconclusive,
+            inner_evaluations=self.inner,
+            inner_nontrivial=self.inner_nt,
             failures=self.failures,
             wall_s=round(time.time() - self.t0, 3),
         )
